@@ -33,8 +33,15 @@ class ExprMixin:
         if ty == T.Real: return sv.t != 0
         raise VCError("truthiness of %s unsupported" % ty)
 
-    def coerce(self, sv, ty):
+    def coerce(self, sv, ty, st=None, node=None):
         if sv.ty == ty: return sv
+        if isinstance(sv.ty, T.Opt) and not isinstance(ty, T.Opt) and ty != T.NoneT:
+            if st is not None and not self.spec:
+                self.oblige(st, z3.Not(T.opt_is_none(sv.ty, sv.t)), "None-where-%s-required" % ty, node)
+                st.assume(z3.Not(T.opt_is_none(sv.ty, sv.t)))
+            elif not self.spec:
+                raise VCError("cannot coerce %s to %s" % (sv.ty, ty))
+            return self.coerce(SV(sv.ty.t, T.opt_val(sv.ty, sv.t), cls=sv.cls), ty, st, node)
         if isinstance(ty, T.Opt):
             if sv.ty == T.NoneT: return SV(ty, T.opt_none(ty))
             return SV(ty, T.opt_some(ty, self.coerce(sv, ty.t).t), cls=sv.cls)
